@@ -157,6 +157,14 @@ def classify(mech, text, hazards=()):
         # known finding: cross-directory references against the package layering (see DESIGN 10.2)
         return "non-layered-references:" + "+".join(hazards)
     if mech in ("attribute-walk-reaches-wrong-object", "attribute-walk-fails"):
+        # the lower-case helpers generated modules import (from __future__ import annotations, from typing import cast)
+        # travel along the star-imports like the PascalCase ones (finding 15) and land on the package attribute that
+        # should be the module of a type named Annotations / Cast
+        import re
+
+        m = re.match(r"(eolib\.protocol\._generated[\w.]*)\.(annotations|cast): ", text)
+        if m and ("_Feature(" in text or "function cast" in text or " is cast," in text):
+            return "generated-module-shadowed-by-imported-helper:" + m.group(2)
         return "subpackage-attribute-shadowed-by-star-import"
     return mech
 
